@@ -96,6 +96,9 @@ class GaussianProcessSum(Predictor):
   def append_lie_data(self, lie_locations, lie_method=CONSTANT_LIAR_MIN):
     for gp in self.gaussian_process_list:
       gp.append_lie_data(lie_locations, lie_method)
+    self._best_index = None
+    self._points_sampled_value_sum = None
+    self._points_sampled_noise_variance_sum = None
 
   def compute_mean_of_points(self, points_to_sample):
     num_points = points_to_sample.shape[0]
